@@ -22,6 +22,11 @@ MUTATIONS = {
         ('tls', 'tonic/src/transport/server/service/tls.rs', r'None => builder\.with_no_client_auth\(\),\n            Some\(cert\) => \{', 'None => builder.with_no_client_auth(),\n            Some(_) if client_auth_optional => builder.with_no_client_auth(),\n            Some(cert) => {', 'an optional client CA is not used at all'),
         ('tls', 'tonic/src/transport/channel/service/connector.rs', r'Err\(HttpsUriWithoutTlsSupport\(\(\)\)\.into\(\)\)', 'Ok(BoxedIo::new(io))', 'an https URI without TLS configuration falls back to plaintext'),
         ('tls', 'tonic/src/transport/server/tls.rs', r'client_auth_optional: optional,', 'client_auth_optional: !optional,', 'the client_auth_optional setter stores the negation'),
+        ('tls', 'tonic/src/transport/server/io_stream.rs', r'let io = tls\.accept\(stream\)\.await\?;\s*Ok\(ServerIo::new_tls_io\(io\)\)', 'let _ = tls; Ok(ServerIo::new_io(stream))', 'the accept task skips the handshake and serves the raw connection'),
+        ('tls', 'tonic/src/transport/server/io_stream.rs', r'state: tls\.map\(\|tls\| State\(tls, JoinSet::new\(\)\)\),', 'state: None,', 'the configured acceptor is dropped: a TLS server accepts plaintext'),
+        ('tls', 'tonic/src/transport/server/io_stream.rs', r'SelectOutput::TlsErr\(e\) => \{\s*tracing::debug!\(error = %e, "tls accept error"\);\s*cx\.waker\(\)\.wake_by_ref\(\);\s*Poll::Pending', 'SelectOutput::TlsErr(e) => {\n                tracing::debug!(error = %e, "tls accept error");\n                return self.poll_next_without_tls(cx);\n                #[allow(unreachable_code)]\n                Poll::Pending', 'after a failed handshake the next connection is served without TLS'),
+        ('tls', 'tonic/src/transport/server/service/io.rs', r'req\.extensions_mut\(\)\.insert\(inner\.get_ref\(\)\.clone\(\)\);\s*req\.extensions_mut\(\)\.insert\(inner\);', 'req.extensions_mut().insert(inner.get_ref().clone());', 'requests on a TLS connection do not carry its TlsConnectInfo'),
+        ('tls', 'tonic/src/transport/server/service/io.rs', r'Self::TlsIo\(io\) => Self::TlsIo\(io\.clone\(\)\),', 'Self::TlsIo(io) => Self::TlsIo(TlsConnectInfo { inner: io.get_ref().clone(), certs: None }),', 'cloning the connect info (once per request) loses the peer certificates'),
         ('tls', 'tonic/src/transport/server/conn.rs', r'let certs = session\s*\.peer_certificates\(\)\s*\.map\(\|certs\| certs\.to_owned\(\)\.into\(\)\);', 'let certs = None; let _ = session;', 'the handler never sees the peer certificates'),
     ],
     'C20': [
